@@ -12,7 +12,7 @@ pub fn main(args: &[String]) -> i32 {
     match args[0].as_str() {
         "crash" => crash(&args[1], &args[2], &args[3]),
         "fault" => crate::checks::c11::worker(&args[1], &args[2], &args[3]),
-        "proc" => crate::checks::c13::worker(&args[1..]),
+        "proc" => crate::checks::c13::worker(args),
         _ => 2,
     }
 }
